@@ -87,3 +87,31 @@ int ok_out_cap__checked(uint8_t *out, size_t *out_len, const bn_t m, size_t size
 	}
 	return RLC_ERR;
 }
+
+/* the leading-byte check is remembered in a flag that is reset before it is consulted */
+int bad_check_dead__reset(bn_t m, bn_t t, const uint8_t *h1, const uint8_t *h2) {
+	int pad, result = RLC_ERR;
+	pad = (bn_is_zero(t) ? 0 : 1);
+	bn_rsh(t, m, 8);
+	pad = 0;
+	for (int i = 0; i < RLC_MD_LEN; i++) {
+		pad |= h1[i] ^ h2[i];
+	}
+	if (pad == 0 && bn_cmp_dig(t, 1) == RLC_EQ) {
+		result = RLC_OK;
+	}
+	return result;
+}
+
+int ok_check_live(bn_t m, bn_t t, const uint8_t *h1, const uint8_t *h2) {
+	int pad, result = RLC_ERR;
+	pad = (bn_is_zero(t) ? 0 : 1);
+	bn_rsh(t, m, 8);
+	for (int i = 0; i < RLC_MD_LEN; i++) {
+		pad |= h1[i] ^ h2[i];
+	}
+	if (pad == 0 && bn_cmp_dig(t, 1) == RLC_EQ) {
+		result = RLC_OK;
+	}
+	return result;
+}
